@@ -96,7 +96,9 @@ def handleIo (op : String) (a : List String) (impl : String) : Option Verdict :=
   | "io.textread", [hx] => do
     let bytes ← parseHexBytes hx
     let r := readText bytes
-    pure (cmpRead impl (renderRead r) s!"textread-{readClass r}")
+    -- the text reader model is stated for ASCII input only: on other bytes it makes no prediction (the run must still end in OK or ERR)
+    if !allAscii bytes then pure (if impl.startsWith "OK " || impl.startsWith "ERR " then .ok "textread-nonascii-unmodelled" else .bad "OK or ERR")
+    else pure (cmpRead impl (renderRead r) s!"textread-{readClass r}")
   | "io.specread", [hx] => do
     let bytes ← parseHexBytes hx
     let r := readSpectrum bytes
@@ -128,7 +130,7 @@ def handleIo (op : String) (a : List String) (impl : String) : Option Verdict :=
     let r := if fmt == "npy" then writeNpyWr shape bits w else writeTextWr shape bits p w
     let m := match r with | .ok w' => s!"OK {showHexBytes w'.out}" | .error e => s!"ERR {errTag e}"
     pure (cmpStr impl m s!"wr-{fmt}-{if fail.isSome then "fail" else "short"}-{match r with | .ok _ => "ok" | .error e => "err-" ++ errTag e}")
-  | "io.cmd", [cmd, args, hx] => do
+  | "io.cmd", [cmd, args, hx] | "io.cmdp", [cmd, args, hx] => do
     let bytes ← parseHexBytes hx
     match readSpectrum bytes with
     | .error e => pure (cmpStr impl "ERR|1|-" s!"cli-{cmd}-rejected-{errTag e}")
